@@ -142,7 +142,8 @@ def run(ctx):
     rng = random.Random(ctx.seed)
     drive.setup(hooks=False)
     # ---- design
-    days = [dt.date(y, m, dd) for y in ctx.pick((2024,), (2000, 2024, 2050, 2099)) for m in ctx.pick((1, 12), (1, 2, 12)) for dd in ctx.pick((1, 13), (1, 13, 28))]
+    # (the design instance bumps 40 days after each start date: that day must stay inside 2000..2099, where two-digit years are meaningful)
+    days = [dt.date(y, m, dd) for y in ctx.pick((2024,), (2000, 2024, 2050, 2098)) for m in ctx.pick((1, 12), (1, 2, 12)) for dd in ctx.pick((1, 13), (1, 13, 28))]
     gen = glue.gen_module("Gen_C20", dict(GenPatterns=[parse_pat(p) for p in PATS], GenDays=set(d.toordinal() for d in days),
                                           GenBids={tuple(glue.cp(b)) for b in ("0001", "0999", "1000", "9998", "12345")}, GenTags={"final", "beta", "rc"},
                                           GenDerived=[parse_pat(p) for p in DERIVED]))
